@@ -66,6 +66,15 @@ def saturate(ctx, base, schemas, extra_terms=(), rounds=ROUNDS):
     apps = {}
     ninst = 0
     frontier = list(facts)
+    # hypotheses without triggers over several variables: instantiated at the goal's own skolem tuple
+    for s in schemas:
+        if not s.triggers and s.nvars > 1 and len(extra_terms) >= s.nvars:
+            saved = len(ctx.path)
+            inst = s.instantiate(*extra_terms[:s.nvars])
+            new = ctx.path[saved:]
+            del ctx.path[saved:]
+            facts.extend(new + [inst])
+            frontier.extend(new + [inst])
     # hypotheses without triggers are instantiated at the skolem constants / extra terms
     for s in schemas:
         if not s.triggers and s.nvars == 1:
@@ -114,8 +123,8 @@ def saturate(ctx, base, schemas, extra_terms=(), rounds=ROUNDS):
                 if not getattr(s, "pair", False):
                     continue
                 ids = list(occ)
-                if len(ids) > 14:
-                    ids = ids[:14]
+                if len(ids) > 40:
+                    ids = ids[:40]
                 for x in ids:
                     for y in ids:
                         if x == y or (id(s), x, y) in pair_done:
@@ -154,6 +163,10 @@ def build_query(ctx, ob, rounds=None):
     neg = z3.Not(ob.goal)
     base = list(ob.path) + [neg]
     facts, ninst = saturate(ctx, base, ob.schemas, ob.extra_terms, rounds)
+    if getattr(ctx, "normalise_products", False):
+        # sum-of-monomials normal form: (lenc + 1) * (d + 1) becomes lenc*d + lenc + d + 1, so that products share monomials and the
+        # monotonicity instances below talk about the same atoms (equivalence-preserving rewriting by z3's simplifier)
+        facts = [z3.simplify(f, som=True) for f in facts]
     facts = facts + product_lemmas(facts)
     s = z3.Solver()
     s.add(*facts)
